@@ -15,9 +15,13 @@ int main() {
         out << " ONF";
         for (size_t e = 0; e < m; e++) out << " " << (fi.is_on_forest(c.edges[e]) ? 1 : 0);
         // copy construction / assignment keep the index
-        parmcb::ForestIndex<DGraph> fj(fi); parmcb::ForestIndex<DGraph> fk(c.g); fk = fj;
+        // (the assigned-to index is first built for a DIFFERENT graph, so every field has to be overwritten)
+        DGraph other(n + 3); boost::add_edge(0, 1, other); boost::add_edge(1, 2, other); boost::add_edge(2, 0, other);
+        parmcb::ForestIndex<DGraph> fj(fi); parmcb::ForestIndex<DGraph> fk(other); fk = fj;
         bool same = fk.weak_connected_components() == fi.weak_connected_components() && fk.cycle_space_dimension() == fi.cycle_space_dimension();
-        for (size_t e = 0; e < m && same; e++) same = fk(c.edges[e]) == fi(c.edges[e]) && c.id(fk(fi(c.edges[e]))) == e;
+        for (size_t e = 0; e < m && same; e++) same = fk(c.edges[e]) == fi(c.edges[e]) && c.id(fk(fi(c.edges[e]))) == e
+                                                      && fk.is_on_forest(c.edges[e]) == fi.is_on_forest(c.edges[e]) && fj(c.edges[e]) == fi(c.edges[e]);
+        same = same && fj.weak_connected_components() == fi.weak_connected_components() && fj.cycle_space_dimension() == fi.cycle_space_dimension();
         out << " COPY " << (same ? 1 : 0);
         // recover the order in which the BFS roots were taken: emission order of spanning_forest
         std::vector<DGraph::edge_descriptor> emitted;
